@@ -14,6 +14,7 @@
    very last segment are stretched (and only if they are on the table's first /
    last chromosome). *)
 From CNV Require Import Base.Prelude Base.Str Gen.Params Gen.SegDefaults Model.Arms.
+From CNV Require Model.Ranges Model.Haar Model.Chromsort.
 
 Record bin := mkBin {
   b_lo : Z; b_hi : Z; b_gene : string; b_log2 : Q;
@@ -245,3 +246,359 @@ Fixpoint hmm_rows (is_first : bool) (tbl : list chrom_in) : list (string * list 
   end.
 
 Definition hmm_table (tbl : list chrom_in) : list (string * list seg) := hmm_rows true tbl.
+
+(* ======================================================================== *)
+(* The same pipeline along the code's own path: what the entry points run.   *)
+(* ======================================================================== *)
+
+(* ---- rows as the segmentation methods hand them to transfer_fields --------- *)
+
+(* start, end, probes, log2 (None: not modelled) of one row of `segarr` *)
+Record raw := mkRaw { w_lo : Z; w_hi : Z; w_probes : Z; w_log2 : option Q }.
+
+Definition raw_of (m : method) (r : rseg) : raw :=
+  mkRaw (r_lo r) (r_hi r) (Z.of_nat (length (group_bins (r_group r)))) (seg_log2 m (group_bins (r_group r))).
+
+Definition raw_set_lo (v : Z) (w : raw) : raw := mkRaw v (w_hi w) (w_probes w) (w_log2 w).
+Definition raw_set_hi (v : Z) (w : raw) : raw := mkRaw (w_lo w) v (w_probes w) (w_log2 w).
+
+(* segments.data.iloc[0, start] = bins_start ; segments.data.iloc[-1, end] = bins_end *)
+Definition raw_stretch_lo (v : Z) (l : list raw) : list raw :=
+  match l with [] => [] | w :: t => raw_set_lo v w :: t end.
+
+Fixpoint raw_stretch_hi (v : Z) (l : list raw) : list raw :=
+  match l with
+  | [] => []
+  | [w] => [raw_set_hi v w]
+  | w :: t => w :: raw_stretch_hi v t
+  end.
+
+(* ---- transfer_fields, the aggregation step as the code runs it ------------- *)
+
+(* cdata = cnarr.data.reset_index(): the row labels are the positions 0 .. n-1, and
+   bin_weights[bin_idx] / bin_depths[bin_idx] / bin_genes[bin_idx] index by them.
+   iter_slices(cdata, segments.data, "outer", False) is the C07 model
+   (Model/Ranges.v: by_shared_chroms, idx_ranges, searchsorted); mode and keep_empty
+   are read from the source (Gen/SegDefaults.v). *)
+Fixpoint bin_rows_from (c : string) (i : Z) (bins : list bin) : list Ranges.trow :=
+  match bins with
+  | [] => []
+  | b :: t => (c, Ranges.mkRow i (b_lo b) (b_hi b)) :: bin_rows_from c (i + 1) t
+  end.
+
+Definition seg_rows (c : string) (qs : list (Z * Z)) : list Ranges.trow :=
+  map (fun q => (c, Ranges.mkRow 0 (fst q) (snd q))) qs.
+
+Definition dummy_bin : bin := mkBin 0 0 ""%string 0%Q None 0%Q.
+
+Definition take_bins (bins : list bin) (sel : list Ranges.row) : list bin :=
+  map (fun r => nth (Z.to_nat (Ranges.r_id r)) bins dummy_bin) sel.
+
+Definition slices (c : string) (bins : list bin) (qs : list (Z * Z)) : list (list bin) :=
+  map (take_bins bins)
+      (Ranges.iter_slices (bin_rows_from c 0 bins) (seg_rows c qs)
+                          (Ranges.imode_of_name transfer_slices_mode) transfer_slices_keep_empty).
+
+Definition fill (w : raw) (gene : string) (wt : option Q) (d : Q) : seg :=
+  mkSeg (w_lo w) (w_hi w) (w_probes w) (w_log2 w) gene wt d.
+
+(* seg_genes = ["-"] * n; seg_weights = seg_depths = zeros(n);
+   for i, bin_idx in enumerate(iter_slices(...)): row i gets the i-th selection *)
+Fixpoint fill_rows (ws : list raw) (sl : list (list bin)) : list seg :=
+  match ws with
+  | [] => []
+  | w :: wt =>
+      match sl with
+      | sp :: st => fill w (gene_field (map b_gene sp)) (sum_weights sp) (agg_depth sp) :: fill_rows wt st
+      | [] => fill w "-"%string (Some 0%Q) 0%Q :: fill_rows wt []
+      end
+  end.
+
+Definition raw_range (w : raw) : Z * Z := (w_lo w, w_hi w).
+
+Definition aggregate (c : string) (bins : list bin) (ws : list raw) : list seg :=
+  fill_rows ws (slices c bins (map raw_range ws)).
+
+(* transfer_fields(segments, cnarr) for a piece on one chromosome with at least one row *)
+Definition transfer (c : string) (bins : list bin) (ws : list raw) : list seg :=
+  match bins with
+  | [] => []
+  | b :: t => aggregate c bins (raw_stretch_hi (b_hi (last t b)) (raw_stretch_lo (b_lo b) ws))
+  end.
+
+Definition rq (r : rseg) : Z * Z := (r_lo r, r_hi r).
+
+Definition finish_rows (m : method) (rs : list rseg) (sl : list (list bin)) : list seg :=
+  fill_rows (map (raw_of m) rs) sl.
+
+Definition piece_name : string := "c"%string.     (* one piece = one chromosome; the name is irrelevant *)
+
+Definition arm_segs_code (m : method) (fl : list fbin) (bps : list Z) : list seg :=
+  let rs := arm_rsegs fl bps in finish_rows m rs (slices piece_name (map fst fl) (map rq rs)).
+
+Definition chrom_segs_code (m : method) (fl : list fbin) (bps : list Z) : list seg :=
+  flat_map (fun p => finish_rows m (snd p) (slices piece_name (fst p) (map rq (snd p))))
+           (arms_rsegs m (chrom_arms fl) 0 bps).
+
+Definition chrom_hmm_segs_code (is_first is_last : bool) (c : chrom_in) : list seg :=
+  let rs := chrom_hmm_rsegs is_first is_last c in
+  finish_rows MHmm rs (slices (c_name c) (map fst (c_fl c)) (map rq rs)).
+
+Fixpoint hmm_rows_code (is_first : bool) (tbl : list chrom_in) : list (string * list seg) :=
+  match tbl with
+  | [] => []
+  | c :: t => (c_name c, chrom_hmm_segs_code is_first (is_nil t) c) :: hmm_rows_code false t
+  end.
+
+Definition hmm_table_code (tbl : list chrom_in) : list (string * list seg) := hmm_rows_code true tbl.
+
+(* ---- haar: segment_haar / one_chrom on the survivors of one arm ---------------- *)
+
+
+(* what the harness supplies per haarSeg call: the smoothed signal cnarr.smooth_log2()
+   of the piece (Savitzky-Golay: outside the model), and per level the p-values of
+   FDRThres and the absorption flag (the oracles of Model/Haar.v) *)
+Record haar_oracle := mkHO { ho_signal : list Q; ho_pvals : list (list Q); ho_absorb : list bool }.
+
+Definition empty_oracle : haar_oracle := mkHO [] [] [].
+
+Definition by_level {A} (d : A) (l : list A) (level : Z) : A :=
+  nth (Z.to_nat (level - hd 0 Model.Haar.haar_levels)) l d.
+
+Section HaarPath.
+Variables (scale_u scale_w : Z -> Q).     (* h |-> math.sqrt(2.0 * h), math.sqrt(h / 2) *)
+Variable q : Q.                            (* the FDR threshold *)
+
+(* haarSeg(cnarr.smooth_log2(), fdr_q, W = cnarr["weight"].values) *)
+Definition haar_one (surv : list bin) (o : haar_oracle) : Model.Haar.haar_result :=
+  Model.Haar.haar_seg scale_u scale_w (by_level [] (ho_pvals o)) (by_level false (ho_absorb o))
+              (ho_signal o) (Some (map wt0 surv)) q.
+
+Definition bin_at (surv : list bin) (i : Z) : bin := nth (Z.to_nat i) surv dummy_bin.
+
+(* one_chrom's table: start = starts.take(results["start"]), end = ends.take(results["end"]),
+   log2 = results["mean"], probes = results["size"] *)
+Definition haar_table (surv : list bin) (r : Model.Haar.haar_result) : list raw :=
+  map (fun x => let '(st, ed, sz, mn) := x in
+                mkRaw (b_lo (bin_at surv st)) (b_hi (bin_at surv ed)) sz (Some mn))
+      (combine (combine (combine (Model.Haar.hr_start r) (Model.Haar.hr_end r)) (Model.Haar.hr_size r)) (Model.Haar.hr_mean r)).
+
+(* segment_haar: haar's own by_arm() on what it is given (the survivors of the arm),
+   one haarSeg call per piece, tables concatenated *)
+Fixpoint haar_pieces (subs : list (list bin)) (os : list haar_oracle) : list raw :=
+  match subs with
+  | [] => []
+  | s :: st => haar_table s (haar_one s (hd empty_oracle os)) ++ haar_pieces st (tl os)
+  end.
+
+Definition segment_haar (surv : list bin) (os : list haar_oracle) : list raw :=
+  haar_pieces (arm_split b_lo b_hi surv) os.
+
+End HaarPath.
+
+(* ---- `variants=`: re-splitting the rows by hmm.variants_in_segment ------------------ *)
+
+(* a variant row: start, end (sorted by start within the chromosome) *)
+Definition vrow := (Z * Z)%type.
+
+Definition v_overlaps (lo hi : Z) (v : vrow) : bool := (fst v <? hi) && (lo <? snd v).
+
+(* squash_by_groups(fake_cnarr, states, by_arm=False) on one chromosome: one row per run of
+   equal states -- start of its first variant, end of its last, number of variants *)
+Fixpoint runs_from (cur : Z) (st en cnt : Z) (vs : list vrow) (states : list Z) : list (Z * Z * Z) :=
+  match vs, states with
+  | v :: vt, s :: stt =>
+      if s =? cur then runs_from cur st (snd v) (cnt + 1) vt stt
+      else (st, en, cnt) :: runs_from s (fst v) (snd v) 1 vt stt
+  | _, _ => [(st, en, cnt)]
+  end.
+
+Definition runs_of (vs : list vrow) (states : list Z) : list (Z * Z * Z) :=
+  match vs, states with
+  | v :: vt, s :: stt => runs_from s (fst v) (snd v) 1 vt stt
+  | _, _ => []
+  end.
+
+Definition run_start (r : Z * Z * Z) : Z := fst (fst r).
+Definition run_end (r : Z * Z * Z) : Z := snd (fst r).
+Definition run_count (r : Z * Z * Z) : Z := snd r.
+
+(* mid_breakpoints = (results.start.values[1:] + results.end.values[:-1]) // 2 *)
+Fixpoint mid_breaks (rs : list (Z * Z * Z)) : list Z :=
+  match rs with
+  | a :: ((b :: _) as t) => (run_start b + run_end a) / vseg_mid_divisor :: mid_breaks t
+  | _ => []
+  end.
+
+Fixpoint rows3 (starts ends probes : list Z) (lg : option Q) : list raw :=
+  match starts, ends, probes with
+  | s :: st, e :: et, p :: pt => mkRaw s e p lg :: rows3 st et pt lg
+  | _, _, _ => []
+  end.
+
+(* variants_in_segment(varr, segment); None = RuntimeError (a row with start >= end) *)
+Definition resplit (w : raw) (vs : list vrow) (states : list Z) : option (list raw) :=
+  if vseg_min_variants <? Z.of_nat (length vs) then
+    let rs := runs_of vs states in
+    match rs with
+    | _ :: _ :: _ =>
+        let mids := mid_breaks rs in
+        let rows := rows3 (w_lo w :: mids) (mids ++ [w_hi w]) (map run_count rs) (w_log2 w) in
+        if forallb (fun r => w_lo r <? w_hi r) rows then Some rows else None
+    | _ => Some [w]
+    end
+  else Some [w].
+
+(* newsegs = [variants_in_segment(subvarr, segment) for segment, subvarr in variants.by_ranges(segarr)]:
+   every row with the variants overlapping it ("outer", keep_empty) and its own state path *)
+Fixpoint resplit_all (ws : list raw) (vars : list vrow) (states : list (list Z)) : option (list raw) :=
+  match ws with
+  | [] => Some []
+  | w :: wt =>
+      match resplit w (filter (v_overlaps (w_lo w) (w_hi w)) vars) (hd [] states),
+            resplit_all wt vars (tl states) with
+      | Some a, Some b => Some (a ++ b)
+      | _, _ => None
+      end
+  end.
+
+(* ---- _do_segmentation on one arm, per-arm methods, all options ------------------------ *)
+
+Inductive arm_method :=
+| AGiven (m : method) (bps : list Z)          (* breakpoints taken as an oracle (none: []) *)
+| AHaar (scale_u scale_w : Z -> Q) (q : Q) (os : list haar_oracle).
+
+Definition method_rows (am : arm_method) (surv : list bin) : list raw :=
+  match am with
+  | AGiven m bps => map (raw_of m) (map seg_of_group (groups_of_breaks bps surv))
+  | AHaar su sw q os => segment_haar su sw q surv os
+  end.
+
+Section ArmFull.
+Context {B : Type} (baf : Z -> Z -> B).     (* variants.baf_by_ranges, an oracle function of the range *)
+
+(* variants given: (variant rows of the chromosome, one state path per method row) *)
+Definition arm_rows (am : arm_method) (fl : list fbin) (variants : option (list vrow * list (list Z)))
+  : option (list raw) :=
+  match survivors fl with
+  | [] => Some []
+  | surv =>
+      let rows := method_rows am surv in
+      match variants with
+      | None => Some rows
+      | Some (vars, states) => resplit_all rows vars states
+      end
+  end.
+
+(* the arm's report: the rows after transfer_fields, each with the baf it was given
+   (computed on the row's range BEFORE the stretch, as the code does) *)
+Definition arm_full (c : string) (am : arm_method) (fl : list fbin) (variants : option (list vrow * list (list Z)))
+  : option (list (seg * B)) :=
+  match arm_rows am fl variants with
+  | None => None
+  | Some rows => Some (combine (transfer c (map fst fl) rows) (map (fun w => baf (w_lo w) (w_hi w)) rows))
+  end.
+
+End ArmFull.
+
+(* ---- do_segmentation: the process pool and the final table ------------------------------ *)
+
+(* concurrent.futures map: item i goes to worker assign(i); each worker returns its results
+   tagged with the item's index; the futures are read in submission order *)
+Section Pool.
+Context {X Y : Type} (f : X -> Y).
+
+Definition worker_results (assign : nat -> nat) (w : nat) (ixs : list (nat * X)) : list (nat * Y) :=
+  map (fun ix => (fst ix, f (snd ix))) (filter (fun ix => Nat.eqb (assign (fst ix)) w) ixs).
+
+Definition pool_map (p : nat) (assign : nat -> nat) (xs : list X) : list Y :=
+  let ixs := combine (seq 0 (length xs)) xs in
+  let done := concat (map (fun w => worker_results assign w ixs) (seq 0 p)) in
+  flat_map (fun i => match find (fun iy => Nat.eqb (fst iy) i) done with
+                     | Some iy => [snd iy]
+                     | None => []
+                     end) (seq 0 (length xs)).
+
+End Pool.
+
+
+(* ---- do_segmentation for the per-arm methods: jobs, pool, concat + sort -------------------- *)
+
+Inductive table_method :=
+| TGiven (m : method)                                   (* none, or breakpoints as an oracle *)
+| THaar (scale_u scale_w : Z -> Q) (q : Q).             (* haar, computed *)
+
+(* one chromosome of the input table with the oracles the harness supplies for it *)
+Record chrom_job := mkCJ {
+  cj_name : string;
+  cj_fl : list fbin;
+  cj_bps : list Z;                   (* TGiven: breakpoints into the chromosome's survivor list *)
+  cj_haar : list haar_oracle;        (* THaar: one per haarSeg call, in call order *)
+  cj_vars : option (list vrow);      (* the chromosome's variant rows; None: no `variants=` *)
+  cj_states : list (list Z) }.       (* one state path per method row, in row order *)
+
+(* what one call of _ds receives *)
+Record arm_job := mkAJ {
+  aj_name : string;
+  aj_fl : list fbin;
+  aj_method : arm_method;
+  aj_vars : option (list vrow * list (list Z)) }.
+
+Definition n_calls (surv : list bin) : nat :=
+  match surv with [] => 0%nat | _ => length (arm_split b_lo b_hi surv) end.
+
+Fixpoint chrom_jobs (tm : table_method) (name : string) (arms : list (list fbin)) (off : Z) (bps : list Z)
+    (hos : list haar_oracle) (vars : option (list vrow)) (states : list (list Z)) : list arm_job :=
+  match arms with
+  | [] => []
+  | a :: t =>
+      let surv := survivors a in
+      let k := Z.of_nat (length surv) in
+      let nc := n_calls surv in
+      let am := match tm with
+                | TGiven m => AGiven m (method_bps m off k bps)
+                | THaar su sw q => AHaar su sw q (firstn nc hos)
+                end in
+      let nr := match surv with [] => 0%nat | _ => length (method_rows am surv) end in
+      mkAJ name a am (match vars with Some v => Some (v, firstn nr states) | None => None end)
+        :: chrom_jobs tm name t (off + k) bps (skipn nc hos) vars (skipn nr states)
+  end.
+
+(* `for _, ca in cnarr.by_arm()`: chromosomes in table order, arms in order *)
+Definition table_jobs (tm : table_method) (tbl : list chrom_job) : list arm_job :=
+  flat_map (fun c => chrom_jobs tm (cj_name c) (chrom_arms (cj_fl c)) 0 (cj_bps c) (cj_haar c) (cj_vars c) (cj_states c)) tbl.
+
+Section Table.
+Context {B : Type} (baf : string -> Z -> Z -> B).
+
+Definition out_row : Type := (string * (seg * B))%type.
+
+Definition run_job (j : arm_job) : option (list out_row) :=
+  match arm_full (baf (aj_name j)) (aj_name j) (aj_method j) (aj_fl j) (aj_vars j) with
+  | Some rows => Some (map (fun r => (aj_name j, r)) rows)
+  | None => None
+  end.
+
+Definition row_region (r : out_row) : string * Z * Z := (fst r, s_lo (fst (snd r)), s_hi (fst (snd r))).
+
+(* cnarr.concat(rets): pd.concat + GenomicArray.sort (stable, by chromosome key, start, end) *)
+Definition concat_sorted (rets : list (list out_row)) : list out_row :=
+  Chromsort.sort_regions_fast row_region (concat rets).
+
+(* do_segmentation(..., processes = p) with any assignment of the arms to the workers;
+   None: a worker raised *)
+Definition table_segs (p : nat) (assign : nat -> nat) (tm : table_method) (tbl : list chrom_job)
+  : option (list out_row) :=
+  match all_some (pool_map run_job p assign (table_jobs tm tbl)) with
+  | Some rets => Some (concat_sorted rets)
+  | None => None
+  end.
+
+(* the serial reference: SerialPool.map *)
+Definition table_segs_serial (tm : table_method) (tbl : list chrom_job) : option (list out_row) :=
+  match all_some (map run_job (table_jobs tm tbl)) with
+  | Some rets => Some (concat_sorted rets)
+  | None => None
+  end.
+
+End Table.
